@@ -22,6 +22,7 @@ type call struct {
 	name string // full derive function name
 	typ  string // A, B, C, D
 	file int
+	late bool // the first argument is itself a derive call (deriveClone): the call can only be typed in the second generation pass
 }
 
 type plug struct {
@@ -57,13 +58,18 @@ func render(pl plug, calls []call, reserve bool) map[string]string {
 		srcs[i].WriteString("package p\n\n")
 	}
 	for i, c := range calls {
+		x := "x"
+		if c.late {
+			// one clone function per type: the same name for the same type is not a clash
+			x = "deriveCloneOf" + c.typ + "(x)"
+		}
 		switch pl.name {
 		case "equal":
-			fmt.Fprintf(&srcs[c.file], "func f%d(x, y *%s) bool {\n\treturn %s(x, y)\n}\n\n", i, c.typ, c.name)
+			fmt.Fprintf(&srcs[c.file], "func f%d(x, y *%s) bool {\n\treturn %s(%s, y)\n}\n\n", i, c.typ, c.name, x)
 		case "hash":
-			fmt.Fprintf(&srcs[c.file], "func f%d(x *%s) uint64 {\n\treturn %s(x)\n}\n\n", i, c.typ, c.name)
+			fmt.Fprintf(&srcs[c.file], "func f%d(x *%s) uint64 {\n\treturn %s(%s)\n}\n\n", i, c.typ, c.name, x)
 		case "keys":
-			fmt.Fprintf(&srcs[c.file], "func f%d(x map[%s]int) []%s {\n\treturn %s(x)\n}\n\n", i, c.typ2(), c.typ2(), c.name)
+			fmt.Fprintf(&srcs[c.file], "func f%d(x map[%s]int) []%s {\n\treturn %s(%s)\n}\n\n", i, c.typ2(), c.typ2(), c.name, x)
 		}
 	}
 	for i := range srcs {
@@ -118,7 +124,11 @@ func analyse(calls []call) (conflict, duplicate bool) {
 func descr(pl plug, calls []call, flags []string, reserve bool) string {
 	var ss []string
 	for _, c := range calls {
-		ss = append(ss, fmt.Sprintf("%s(%s)@f%d", c.name, c.typ, c.file))
+		l := ""
+		if c.late {
+			l = "[late]"
+		}
+		ss = append(ss, fmt.Sprintf("%s(%s)@f%d%s", c.name, c.typ, c.file, l))
 	}
 	r := ""
 	if reserve {
@@ -311,36 +321,47 @@ func TestProp(t *testing.T) {
 							}
 							for _, flags := range flagSets {
 								for _, reserve := range []bool{false, true} {
-									if reserve && (k > 3 || len(flags) == 0) {
-										continue
-									}
-									idx++
-									if idx%c.NShards != c.Shard%c.NShards {
-										continue
-									}
-									calls := make([]call, k)
-									for i := range calls {
-										calls[i] = call{name: nameFor(pl, np[i], bare), typ: typeLabels[tp[i]]}
-										if split == 1 {
-											calls[i].file = i % 2
+									for lateMode := 0; lateMode < 3; lateMode++ {
+										if reserve && (k > 3 || len(flags) == 0) {
+											continue
 										}
-									}
-									c.Rep.Eval()
-									conflict, duplicate := analyse(calls)
-									if conflict || duplicate {
-										c.Rep.NT(descr(pl, calls, flags, reserve))
-									}
-									if idx%97 == 0 {
-										c.Rep.Sample(descr(pl, calls, flags, reserve))
-									}
-									sig, msg := judge(c, pl, calls, flags, reserve)
-									if sig != nil && sig["check"] == "infra" {
-										c.Rep.Inconcl("%s", msg)
-										exhaustiveOK = false
-										continue
-									}
-									if sig != nil {
-										c.FailNow(sig, msg, render(pl, calls, reserve), metaOf(pl, calls, flags, reserve))
+										// the last / the first call is typed only in the second generation pass
+										if lateMode > 0 && (k > 3 || reserve || (lateMode == 2 && k < 2)) {
+											continue
+										}
+										idx++
+										if idx%c.NShards != c.Shard%c.NShards {
+											continue
+										}
+										calls := make([]call, k)
+										for i := range calls {
+											calls[i] = call{name: nameFor(pl, np[i], bare), typ: typeLabels[tp[i]]}
+											if split == 1 {
+												calls[i].file = i % 2
+											}
+										}
+										if lateMode == 1 {
+											calls[k-1].late = true
+										} else if lateMode == 2 {
+											calls[0].late = true
+										}
+										c.Rep.Eval()
+										conflict, duplicate := analyse(calls)
+										if conflict || duplicate {
+											c.Rep.NT(descr(pl, calls, flags, reserve))
+										}
+										if idx%97 == 0 {
+											c.Rep.Sample(descr(pl, calls, flags, reserve))
+										}
+										sig, msg := judge(c, pl, calls, flags, reserve)
+										if sig != nil && sig["check"] == "infra" {
+											c.Rep.Inconcl("%s", msg)
+											exhaustiveOK = false
+											continue
+										}
+										if sig != nil {
+											c.FailNow(sig, msg, render(pl, calls, reserve), metaOf(pl, calls, flags, reserve))
+										}
 									}
 								}
 							}
@@ -361,7 +382,8 @@ func TestProp(t *testing.T) {
 		calls := make([]call, k)
 		names := []string{"", "A", "B", "Other", "Fifth", "X"}
 		for i := range calls {
-			calls[i] = call{name: pl.prefix + names[rapid.IntRange(0, len(names)-1).Draw(rt, "name")], typ: typeLabels[rapid.IntRange(0, 3).Draw(rt, "type")], file: rapid.IntRange(0, 2).Draw(rt, "file")}
+			calls[i] = call{name: pl.prefix + names[rapid.IntRange(0, len(names)-1).Draw(rt, "name")], typ: typeLabels[rapid.IntRange(0, 3).Draw(rt, "type")], file: rapid.IntRange(0, 2).Draw(rt, "file"),
+				late: rapid.IntRange(0, 3).Draw(rt, "late") == 0}
 		}
 		flags := flagSets[rapid.IntRange(0, 3).Draw(rt, "flags")]
 		reserve := rapid.Bool().Draw(rt, "reserve") && len(flags) > 0
@@ -386,7 +408,7 @@ func TestProbes(t *testing.T) { pkit.Load(prop).RunProbes(t, nil) }
 func metaOf(pl plug, calls []call, flags []string, reserve bool) map[string]any {
 	var cs []map[string]any
 	for _, c := range calls {
-		cs = append(cs, map[string]any{"name": c.name, "type": c.typ, "file": c.file})
+		cs = append(cs, map[string]any{"name": c.name, "type": c.typ, "file": c.file, "late": c.late})
 	}
 	return map[string]any{"flags": flags, "plugin": pl.name, "calls": cs, "reserve": reserve}
 }
@@ -409,7 +431,8 @@ func TestReplay(t *testing.T) {
 	var calls []call
 	for _, x := range meta["calls"].([]any) {
 		m := x.(map[string]any)
-		calls = append(calls, call{name: m["name"].(string), typ: m["type"].(string), file: int(m["file"].(float64))})
+		late, _ := m["late"].(bool)
+		calls = append(calls, call{name: m["name"].(string), typ: m["type"].(string), file: int(m["file"].(float64)), late: late})
 	}
 	var flags []string
 	if fl, ok := meta["flags"].([]any); ok {
